@@ -582,6 +582,8 @@ fn build_ord_body(
      -> Result<TokenStream> {
         let mut body = TokenStream::new();
         for field in fields {
+            // `partial_ord(reverse)` is refused whenever `Ord` is derived, also on a field that `Ord` ignores
+            let is_reverse = field.hattrs.cmp.is_reverse(op)?;
             if field.hattrs.cmp.is_ignore(op)? {
                 continue;
             }
@@ -589,7 +591,7 @@ fn build_ord_body(
             let mut use_bounds = use_bounds;
             let mut expr =
                 build_ord_expr(source.kind(), field, &mut field_used, &mut use_bounds, wcb)?;
-            if field.hattrs.cmp.is_reverse(op)? {
+            if is_reverse {
                 expr = quote!(::core::cmp::Ordering::reverse(#expr));
             }
             body.extend(quote! {
